@@ -668,7 +668,7 @@ def repeat_arms(run, ctx):
                         if not eps and (n_ > hi_):
                             continue          # the count never passes hi
                         total += 1
-                        vals = {GETR: n_, LO: lo_, "ix": 7}
+                        vals = {GETR: n_, LO: lo_, "ix": 7, "prog.body[pc]": "Insn::" + var}     # (arms merged by an or-pattern ask which one it is)
                         if not eps:
                             vals[HI] = hi_
                         else:
@@ -932,7 +932,9 @@ def own_ix(run, ctx):
                 sites.append((sp, "literal", nd))
             if nd.get("k") == "Call" and H.canon(nd).startswith("Match::new("):
                 sites.append((sp, "new", nd))
-    allowed = {("Match::new", "literal"), ("Captures::get", "literal"), ("Regex::find_from_pos_with_option_flags", "new")}
+    # (where a Match may be built; whether through the private constructor or a struct literal is the same thing)
+    allowed = {("Match::new", "literal"), ("Captures::get", "literal"), ("Captures::get", "new"),
+               ("Regex::find_from_pos_with_option_flags", "new"), ("Regex::find_from_pos_with_option_flags", "literal")}
     for sp, how, nd in sites:
         base = sp.split("::{closure")[0]
         if (base, how) not in allowed:
